@@ -106,7 +106,7 @@ def filterAccessors (b : Bytes) : String :=
       | .ok j => toHex j
       | .err => "jsonerr"
       | .panic => "panic"
-    s!"ok {joinOr (f.ids.map toHex)} {joinOr (f.authors.map toHex)} {joinOr (f.kinds.map toString)} {tagsTok f.tags} {f.since} {f.until} {f.limit} {json} n={f.ids.length},{f.authors.length},{f.kinds.length}"
+    s!"ok {joinOr (f.ids.map toHex)} {joinOr (f.authors.map toHex)} {joinOr (f.kinds.map toString)} {tagsTok f.tags} {f.since} {f.until} {f.limit} {json} n={f.ids.length},{f.authors.length},{f.kinds.length} hll={match hllOffset f with | some v => toString v | none => "none"}"
   | .err => "tagserr"
   | .panic => "panic model"
 
